@@ -77,6 +77,18 @@ static void *poster_main(void *arg)
 
 	for (q = 0; q < nN; q++)
 		post(&R[nR > 1 ? sx_choose(nR) : 0]);
+	if (sx_opt("symburst", 0)) {
+		/* a burst of an unknown number of further posts, all of which found room in the pipe:
+		 * each is one successful 1-byte write, i.e. the byte count grows by that number */
+		struct kfd *f = &kfds[R[0].ev->event_wfd];
+		if (f->kind == K_PIPE_W) {
+			struct kpipe *p = &kpipes[f->obj];
+			long extra = sx_long("burst", 0, p->cap - p->count);
+			p->count += (int)extra;
+			R[0].posts += 2;
+			sx_cover("raw.symbolic-burst");
+		}
+	}
 	if (sig_posts_left > 0) {
 		/* somebody signals the process at this point */
 		sig_posts_left--;
